@@ -16,6 +16,7 @@
 # limitations under the License.
 # -----------------------------------------------------------------------------
 import abc
+import contextvars
 import logging
 from typing import Any
 from collections.abc import Coroutine
@@ -23,6 +24,10 @@ from Cryptodome.PublicKey import ECC, RSA
 from ...encoding import FormalName, BinaryStr, SignatureType, Name, parse_data, SignaturePtrs
 from ...app import NDNApp, Validator, ValidationFailure, InterestTimeout, InterestNack
 from .known_key_validator import verify_rsa, verify_hmac, verify_ecdsa
+
+
+# Names of the certificates a chain of nested validations is fetching at the moment (per task)
+_fetching: contextvars.ContextVar[tuple[bytes, ...]] = contextvars.ContextVar('ndn_cascade_fetching', default=())
 
 
 class PublicKeyStorage(abc.ABC):
@@ -103,6 +108,14 @@ class CascadeChecker:
                 self.logger.debug('Use cached public key.')
             else:
                 self.logger.debug('Cascade fetching public key ...')
+                # The certificates being fetched further up in this very chain (the nested validation runs in the
+                # same task): one of them named again is a loop, which can never reach the trust anchor
+                chain = _fetching.get()
+                cert_name_bytes = Name.to_bytes(cert_name)
+                if cert_name_bytes in chain:
+                    self.logger.debug('Certificate loop.')
+                    return False
+                token = _fetching.set(chain + (cert_name_bytes,))
                 # Try to fetch
                 try:
                     _, _, key_bits = await self.app.express_interest(
@@ -111,6 +124,8 @@ class CascadeChecker:
                 except (ValidationFailure, InterestTimeout, InterestNack):
                     self.logger.debug('Public key not valid.')
                     return False
+                finally:
+                    _fetching.reset(token)
                 self.logger.debug('Public key fetched.')
                 if key_bits:
                     self.storage.save(cert_name, key_bits)
